@@ -27,7 +27,7 @@ Definition sort_uniq (l : list Z) : list Z := fold_right insert_uniq [] l.
 
 (* all instants whose local time is l, ascending, without duplicates *)
 Definition candidates (z : tz) (l : Z) : list Z :=
-  sort_uniq (filter (fun i => to_local z i =? l) (map (fun o => l - o * NS) (offsets z))).
+  sort_uniq (filter (fun i => to_local z i =? l) (map (fun o => l - o * NS) (sort_uniq (offsets z)))).
 
 (* the gap a skipped local time lies in: (offset before, offset after) of the forward transition *)
 Fixpoint gap_from (cur : Z) (l : list (Z * Z)) (loc : Z) : option (Z * Z) :=
